@@ -19,6 +19,9 @@ Mirrors `alias.py` function by function.
 * `World`/`Op`/`step`/`run`: the instance under test plus the instances left
   behind by `deepcopy` and by copy-on-write helpers, so that "the original is not
   touched" is part of what the correspondence compares.
+* `XCfg`/`HOp`/`hstep`/`XOp`/`xstep`/`xrun`: the generated helpers on the alias attribute of a
+  spec class (`with_/update_/transform_/reset_<alias>`, copying or in place) as value
+  computation (`computeValue` = `mutate_value`) followed by the type-checked assignment.
 * `tokenize`/`parsePath`/`render…`: the language of `Alias.ATTR_PARSER` plus the
   join check of `_attr_path` as a hand-written tokenizer (ASCII).
 
@@ -322,6 +325,199 @@ def run (c : Cfg) (w : World) : List Op → World × List Out
   | op :: ops =>
     let (w', o) := step c w op
     let (w'', os) := run c w' ops
+    (w'', o :: os)
+
+/-! ## Generated helper methods on the alias attribute of a spec class
+
+`with_<alias>` / `update_<alias>` / `transform_<alias>` / `reset_<alias>`
+(`spec_classes/methods/scalar.py` + `utils/mutation.py: mutate_value, mutate_attr`),
+copying and `_inplace=True`, with whole values, nested keywords (`update_al(x=5)`) and
+attribute transforms (`transform_al(x=f)`).  Each of them *computes a value* — from the
+arguments and, for `update_`/`transform_`, from a READ of the alias — and then assigns it to
+the alias attribute of the receiver (in place) or of a deep copy.  The tree model has no
+sharing: "the value that was read is deep-copied before it is edited" is what the pure
+functions below say by construction; the correspondence run is what ties this to the code. -/
+
+/-- transforms the harness passes (`lambda v: v`, `lambda v: v + k`, `lambda v: c`) -/
+inductive Xf
+  | ident | add (k : Int) | const (v : Val)
+  deriving Repr, Inhabited
+
+/-- `f(value)` -/
+def Xf.appVal : Xf → Val → Except Err Val
+  | .ident, v => .ok v
+  | .add k, .int n => .ok (.int (n + k))
+  | .add _, _ => .error .typeError
+  | .const c, _ => .ok c
+
+/-- `f(getattr(value, attr, MISSING))`; `none` = `MISSING` (argument and result) -/
+def Xf.app : Xf → Option Val → Except Err (Option Val)
+  | g, some v => match g.appVal v with
+    | .ok r => .ok (some r)
+    | .error e => .error e
+  | .ident, none => .ok none
+  | .add _, none => .error .typeError
+  | .const c, none => .ok (some c)
+
+def Val.isObj : Val → Bool
+  | .obj _ _ => true
+  | _ => false
+
+/-- `value is None` (the harness's scalar `s1`) -/
+def Val.isNone : Val → Bool
+  | .str 1 => true
+  | _ => false
+
+/-- An alias configuration on a spec class, plus the annotation of the alias attribute
+when it is a spec class itself: `proto` = the default-constructed instance of that class
+(`checked` of the base configuration = annotated `int`; neither = `Any`). -/
+structure XCfg where
+  base  : Cfg
+  proto : Option Val := none
+
+/-- `check_type(v, annotation)` in `mutate_attr` -/
+def XCfg.typeOk (x : XCfg) (v : Val) : Bool :=
+  (!x.base.checked || v.isInt) && (x.proto.isNone || v.isObj)
+
+abbrev Attrs := List (String × Val)
+
+/-- `for attr, attr_value in attrs.items(): setattr(value, attr, attr_value)` (on a private copy:
+all or nothing) -/
+def setAttrs : Val → Attrs → Except Err Val
+  | v, [] => .ok v
+  | v, (n, a) :: r => match storeSeg v (.attr n) a with
+    | .error e => .error e
+    | .ok v' => setAttrs v' r
+
+/-- `mutate_value` step 5: left-over attributes on an existing value -/
+def applyAttrs (v : Val) (attrs : Attrs) : Except Err Val :=
+  if attrs.isEmpty then .ok v
+  else if v.isNone then .error .valueError        -- "Cannot use attrs on a missing value …"
+  else setAttrs v attrs
+
+/-- `mutate_value` step 4: the value is `MISSING` → `constructor(**attrs)` of the annotation:
+a spec class takes the attributes as constructor arguments; `int()` = 0; `Any` cannot be instantiated. -/
+def construct (x : XCfg) (attrs : Attrs) : Except Err Val :=
+  match x.proto with
+  | some p => setAttrs p attrs
+  | none => if x.base.checked then setAttrs (.int 0) attrs else .error .typeError
+
+def attrOf : Val → String → Option Val
+  | .obj _ fs, n => fget fs n
+  | _, _ => none
+
+/-- `mutate_value` step 7: `setattr(value, attr, f(getattr(value, attr, MISSING)))` unless the result is `MISSING` -/
+def applyXfs : Val → List (String × Xf) → Except Err Val
+  | v, [] => .ok v
+  | v, (n, g) :: r => match g.app (attrOf v n) with
+    | .error e => .error e
+    | .ok none => applyXfs v r
+    | .ok (some a) => match storeSeg v (.attr n) a with
+      | .error e => .error e
+      | .ok v' => applyXfs v' r
+
+/-- what `getattr(self, alias, MISSING)` gives -/
+inductive Old
+  | val (v : Val) | missing | err (e : Err)
+  deriving Repr, Inhabited
+
+/-- `getattr(self, alias, MISSING)`: the value and how often `__get__` ran.
+`lazy`: the lookup sits in a `lazy_object_proxy.Proxy`, which calls its factory a second
+time when the first call raised. -/
+def readOld (c : Cfg) (s : Inst) (lazy : Bool) : Old × Nat :=
+  match aliasGet c s with
+  | .val v => (.val v, 1)
+  | .fresh v => (.val v, 1)
+  | .err .attributeError => (.missing, readAttempts c .attributeError)
+  | .err e => (.err e, (if lazy then 2 else 1) * readAttempts c e)
+
+inductive HKind
+  | withA (nv : Option Val) (attrs : Attrs)               -- with_<alias>([v], **attrs)
+  | updA (nv : Option Val) (attrs : Attrs)                -- update_<alias>([v], **attrs)
+  | trA (f : Option Xf) (ats : List (String × Xf))        -- transform_<alias>([f], **attr_transforms)
+  deriving Repr, Inhabited
+
+inductive HOp
+  | write (inplace : Bool) (k : HKind)
+  | reset (inplace : Bool)                                -- reset_<alias>
+  deriving Repr, Inhabited
+
+/-- does the helper look the current value up a second time (`_protect_if_unchanged`, copying form only)? -/
+def HKind.protects : HKind → Bool
+  | .withA _ _ => false
+  | _ => true
+
+/-- The value a helper is going to assign, and the number of `__get__` runs spent on it.
+`update_` reads the alias only when no replacement value is given; `transform_` always. -/
+def computeValue (x : XCfg) (s : Inst) : HKind → Except Err Val × Nat
+  | .withA (some v) attrs => (applyAttrs v attrs, 0)
+  | .withA none attrs => (construct x attrs, 0)
+  | .updA (some v) attrs => (applyAttrs v attrs, 0)
+  | .updA none attrs =>
+    match readOld x.base s true with
+    | (.err e, n) => (.error e, n)
+    | (.missing, n) => (construct x attrs, n)
+    | (.val v, n) => (applyAttrs v attrs, n)
+  | .trA f ats =>
+    match readOld x.base s true with
+    | (.err e, n) => (.error e, n)
+    | (old, n) =>
+      let start : Except Err Val := match old with
+        | .val v => .ok v
+        | _ => construct x []
+      match start with
+      | .error e => (.error e, n)
+      | .ok v =>
+        match (match f with | none => Except.ok v | some g => g.appVal v) with
+        | .error e => (.error e, n)
+        | .ok v' => (applyXfs v' ats, n)
+
+/-- `_protect_if_unchanged`: one more `getattr(self, alias, MISSING)` unless in place -/
+def protectRead (c : Cfg) (s : Inst) (inplace : Bool) (k : HKind) : Option Err × Nat :=
+  if inplace || !k.protects then (none, 0)
+  else match readOld c s false with
+    | (.err e, n) => (some e, n)
+    | (_, n) => (none, n)
+
+/-- `mutate_attr(self, alias, v, inplace)`: type check, then the assignment on the receiver or on a copy -/
+def xwrite (x : XCfg) (w : World) (inplace : Bool) (v : Val) : World × Out :=
+  if !x.typeOk v then (w, ⟨.err .typeError, 0⟩)
+  else step x.base w (if inplace then .writeAlias v else .cowWithAlias v)
+
+def addWarns (n : Nat) (r : World × Out) : World × Out := (r.1, ⟨r.2.res, r.2.warns + n⟩)
+
+def hstep (x : XCfg) (w : World) : HOp → World × Out
+  | .reset true => step x.base w .delAlias
+  | .reset false => step x.base w .cowResetAlias
+  | .write inplace k =>
+    match computeValue x w.cur k with
+    | (.error e, n) => (w, ⟨.err e, n * warnsOf x.base⟩)
+    | (.ok v, n) =>
+      match protectRead x.base w.cur inplace k with
+      | (some e, m) => (w, ⟨.err e, (n + m) * warnsOf x.base⟩)
+      | (none, m) => addWarns ((n + m) * warnsOf x.base) (xwrite x w inplace v)
+
+/-- base operations and helper calls in one alphabet -/
+inductive XOp
+  | base (op : Op)
+  | helper (h : HOp)
+  deriving Repr, Inhabited
+
+/-- an assignment the type check of the annotated spec type refuses before the descriptor is reached -/
+def XCfg.refuses (x : XCfg) : Op → Bool
+  | .writeAlias v => !x.typeOk v
+  | .cowWithAlias v => !x.typeOk v
+  | _ => false
+
+def xstep (x : XCfg) (w : World) : XOp → World × Out
+  | .base op => if x.refuses op then (w, ⟨.err .typeError, 0⟩) else step x.base w op
+  | .helper h => hstep x w h
+
+def xrun (x : XCfg) (w : World) : List XOp → World × List Out
+  | [] => (w, [])
+  | op :: ops =>
+    let (w', o) := xstep x w op
+    let (w'', os) := xrun x w' ops
     (w'', o :: os)
 
 /-! ## The path parser: `ATTR_PARSER` + the join check of `_attr_path` -/
